@@ -173,6 +173,7 @@ func runC12(r *vf.Run) {
 			}
 		}
 	})
+	racePass(r)
 	r.Floor("every DSN option set used", r.Covered("dsn_option_sets") == len(dsnOptionSets))
 	r.Floor("grouped query without matching group", r.GetCount("grouped_queries_without_groups") > 0)
 	r.Floor("rejected queries", r.GetCount("queries_expected_to_be_rejected") > 0)
